@@ -6,6 +6,8 @@ mixin services of installed packages) a handler of the DECLARED arity with ident
 """
 import threading, time
 from concurrent import futures
+
+REAL_MONOTONIC = time.monotonic      # captured before any exerciser replaces the clock
 from http.server import BaseHTTPRequestHandler, ThreadingHTTPServer
 
 import grpc
@@ -34,7 +36,7 @@ class GrpcLoop:
                 def record(reqs, ctx):
                     rec = {"method": path, "known": known, "requests": reqs, "declared": (cs, ss),
                            "metadata": [(k, v) for k, v in ctx.invocation_metadata()],
-                           "time_remaining": ctx.time_remaining()}
+                           "time_remaining": ctx.time_remaining(), "t_real": REAL_MONOTONIC()}
                     with loop.lock:
                         rec["index"] = len(loop.calls)
                         loop.calls.append(rec)
